@@ -122,3 +122,34 @@ def judge_c12(case, ctx, intent_known=True):
     if form not in ctx.extra.setdefault("_seen_forms", {}):
         ctx.extra["_seen_forms"][form] = 1
         ctx.sample({"source": lines[case["target"]].strip(), "bytes": b.hex().upper(), "decoded": repr(d), "reserved": reserved}, limit=8)
+
+
+def judge_reject_or_exact(case, ctx):
+    """the statement may be rejected; if it is accepted it must mean exactly what the form record says"""
+    o, lines = observe(case)
+    form, traits = case["form"], case.get("traits", {})
+    ctx.mon("M5.outcome")
+    if o.outcome == "diag":
+        ctx.outcome("rejected")
+        ctx.cell("rejected/" + form)
+        ctx.nontriv(lines[case["target"]])
+        return
+    if o.outcome != "ok":
+        ctx.outcome("not-ok:" + o.outcome)
+        return
+    st, reserved = target_info(o, case)
+    ctx.mon("M1.asm-post")
+    b = bytes(st["bytes"])
+    try:
+        d = R.decode_exact(b)
+    except R.Bad as e:
+        ctx.violation("wellformed", form, "MALFORMED:" + bad_class(str(e)), witness(case, o, lines, {"bytes": b.hex()}), traits)
+        return
+    ctx.mon("R1.decode")
+    sym = compare(d, case["expect"], case["canon"])
+    if sym:
+        ctx.outcome("accepted-as-something-else")
+        ctx.violation("illtyped", form, "ENCODED-AS-SOMETHING-ELSE:" + sym.split(":")[-1], witness(case, o, lines, {"bytes": b.hex(), "decoded": repr(d), "expected": case["expect"]}), traits)
+        return
+    ctx.outcome("ok")
+    ctx.nontriv(lines[case["target"]])
